@@ -379,8 +379,8 @@ class Sched:
                 return self._finish("replay_divergence")
             if c == "T":
                 self.timer_fires_early += 1
-                if not self._timer_jump(timed):
-                    return self._finish("livelock")
+                # other tasks are enabled and may be progressing: this jump is no evidence of a livelock
+                self._timer_jump(timed, early=True)
                 continue
             nxt = self.tasks[c]
             if nxt is not cur:
@@ -392,9 +392,17 @@ class Sched:
                 self.on_step(self, nxt)
             return nxt
 
-    def _timer_jump(self, timed):
+    def _timer_jump(self, timed, early=False):
         """No task is enabled: advance the clock.  Returns False on livelock."""
         d = min(t.deadline for t in timed)
+        if early:
+            self._jumpsigs.clear()
+            self._same_jumps = 0
+            if d > self.now:
+                self.last_advance_step = self.steps
+            self.now = max(self.now, d)
+            self.timer_jumps += 1
+            return True
         woken = tuple(t.tid for t in timed if t.deadline <= d)
         sig = (woken, tuple(self.tasks[i].opsig for i in woken), self.kernel.digest())
         if sig in self._jumpsigs:
